@@ -284,7 +284,16 @@ func init() {
 	add("contains", stdlib.ContainsFunc, nil)
 	add("distinct", stdlib.DistinctFunc, nil)
 	add("chunklist", stdlib.ChunklistFunc, nil)
-	add("flatten", stdlib.FlattenFunc, nil)
+	add("flatten", stdlib.FlattenFunc, func(pos int, th bool) []cty.Value {
+		// the generic sequences plus sequences whose members are maps / objects (kept whole) next to lists (unwrapped)
+		return cat(dynDict(th), []cty.Value{
+			listOf(cty.Map(cty.String), mapOf(cty.String, "a", S("x"), "b", S("y")), mapOf(cty.String, "c", S("z"))),
+			tup(listOf(cty.String, S("p")), mapOf(cty.String, "k", S("v")), objOf("o", N(1))),
+			tup(tup(mapOf(cty.Number, "n", N(1))), setOf(cty.String, S("s"))),
+			listOf(cty.List(cty.Map(cty.Bool)), listOf(cty.Map(cty.Bool), mapOf(cty.Bool, "t", cty.True))),
+			tup(cty.NullVal(cty.Map(cty.String)), listOf(cty.String)),
+		})
+	})
 	add("keys", stdlib.KeysFunc, nil)
 	add("lookup", stdlib.LookupFunc, func(pos int, th bool) []cty.Value {
 		if pos == 1 {
@@ -436,7 +445,8 @@ func init() {
 		return cat(dynDict(true), []cty.Value{cty.PositiveInfinity, parseNum("1e400"), parseNum("0.1"), cty.NumberUIntVal(1 << 63)})
 	})
 	add("jsondecode", stdlib.JSONDecodeFunc, dictAt(nil, sv("null", "true", "1", "1.5", "\"a\"", "[]", "{}", "[1,\"a\"]", "{\"a\":1}", "{\"a\":1,\"a\":2}", "{\"a\":1,\"a\":\"x\"}", "", "{", "[1,]", "1e400", "1e-400", " 1 ",
-		"[[1],[\"a\"]]", "{\"e\u0301\":1}", "\"e\u0301\"", "nul", "1 2", "[null]", "-0", "0.10", "1E2", "{\"a\":{\"b\":[true,null]}}", "\"\\ud83d\"", "[1,[2,[3]]]", "{\"\":1}", "01", "\"a", "[", "{\"a\"}", "{\"a\":}", "tru", "18446744073709551616", "{\"e\u0301\":1,\"\u00e9\":2}")))
+		"[[1],[\"a\"]]", "{\"e\u0301\":1}", "\"e\u0301\"", "nul", "1 2", "[null]", "-0", "0.10", "1E2", "{\"a\":{\"b\":[true,null]}}", "\"\\ud83d\"", "[1,[2,[3]]]", "{\"\":1}", "01", "\"a", "[", "{\"a\"}", "{\"a\":}", "tru", "18446744073709551616", "{\"e\u0301\":1,\"\u00e9\":2}",
+		"\r\n{\"a\":1}", " \t\r\n[1]", "\r\"s\"", "\n\ntrue", "\r\n 12", "\u00a0{}", "\f[]")))
 	// number
 	add("abs", stdlib.AbsoluteFunc, arith)
 	add("add", stdlib.AddFunc, arith)
@@ -553,7 +563,10 @@ func init() {
 		}
 		return sv("", "a", "a\nb", "a\n", "\n", "a\r\nb", "a\n\nb")
 	})
-	add("title", stdlib.TitleFunc, nil)
+	add("title", stdlib.TitleFunc, func(pos int, th bool) []cty.Value {
+		// letters whose title case differs from their upper case (Latin digraphs, Georgian), word boundaries
+		return cat(genericStrs(th), sv("\u01c6ungla \u01c9eto", "\u01c4 \u01f3", "\u10dc\u10d8\u10dc\u10dd \u10d0", "o'neil_x y-z", "\u00dfa \u0149b", "hello w\u00f6rld", "\u1e9e \u03c3\u03c2"))
+	})
 	add("trimspace", stdlib.TrimSpaceFunc, nil)
 	add("trim", stdlib.TrimFunc, func(pos int, th bool) []cty.Value {
 		if pos == 1 {
